@@ -409,6 +409,10 @@ req_compactor<T, C, A> req_compactor<T, C, A>::deserialize(std::istream& is, con
   if (!(section_size_raw >= req_constants::MIN_K - 1 && section_size_raw <= std::numeric_limits<uint16_t>::max()) || num_sections == 0) {
     throw std::invalid_argument("Possible corruption: invalid section size or number of sections");
   }
+  // a compactor at rest is never due for more sections, otherwise the number of sections can overflow later
+  if (num_sections > 64 || (state >= (1ULL << (num_sections - 1)) && nearest_even(section_size_raw / sqrtf(2)) >= req_constants::MIN_K)) {
+    throw std::invalid_argument("Possible corruption: state does not match the number of sections");
+  }
   auto items = deserialize_items(is, serde, allocator, num_items);
   return req_compactor(hra, lg_weight, sorted, section_size_raw, num_sections, state, std::move(items), num_items,
       comparator, allocator);
@@ -457,6 +461,10 @@ std::pair<req_compactor<T, C, A>, size_t> req_compactor<T, C, A>::deserialize(co
   ptr += copy_from_mem(ptr, num_items);
   if (!(section_size_raw >= req_constants::MIN_K - 1 && section_size_raw <= std::numeric_limits<uint16_t>::max()) || num_sections == 0) {
     throw std::invalid_argument("Possible corruption: invalid section size or number of sections");
+  }
+  // a compactor at rest is never due for more sections, otherwise the number of sections can overflow later
+  if (num_sections > 64 || (state >= (1ULL << (num_sections - 1)) && nearest_even(section_size_raw / sqrtf(2)) >= req_constants::MIN_K)) {
+    throw std::invalid_argument("Possible corruption: state does not match the number of sections");
   }
   auto pair = deserialize_items(ptr, end_ptr - ptr, serde, allocator, num_items);
   ptr += pair.second;
